@@ -10,10 +10,12 @@
   * CPython `_csv.c` reader (`parse_process_char`, `Reader_iternext`) for one physical line, default
     dialect flags (doublequote, no escapechar, skipinitialspace off, strict off): states START_RECORD,
     START_FIELD, IN_FIELD, IN_QUOTED_FIELD, QUOTE_IN_QUOTED_FIELD, EAT_CRNL.
-  * `Frame.from_delimited`: for a delimiter other than tab every `csv.reader` row is re-joined with tab;
-    for tab the raw file lines are used (no `csv.reader`); then `np.genfromtxt(delimiter='\t')` splits
-    each line with `LineSplitter._delimited_splitter`: `line.strip(" \r\n")`, empty → no fields, else
-    `line.split('\t')`.
+  * `Frame.from_delimited` (as repaired in 82942dd): for EVERY delimiter, tab included, each `csv.reader`
+    row is re-joined with tab; then `np.genfromtxt(delimiter='\t')` splits each line with
+    `LineSplitter._delimited_splitter`: `line.strip(" \r\n")`, empty → no fields, else `line.split('\t')`.
+    (On the pinned tree the tab delimiter bypassed `csv.reader`: kept as `importTsvOld`.)
+  * `StoreFilter.from_type_filter_element` / `to_type_filter_element` (store_filter.py): the encode /
+    decode table for NaN, NaT, None, +inf, -inf.
   * `Frame._to_str_records` / the header-and-index split of `from_delimited` on cell *texts*.
 
   Strings are `List Char`.
@@ -164,15 +166,21 @@ def genSplit (line : List Char) : List Field :=
   let l := strip line
   if l.isEmpty then [] else splitOnChar '\t' l
 
-/-- One line through `from_delimited` with a delimiter other than tab:
-    `csv.reader` row → tab join → genfromtxt split. -/
+/-- One line through `from_delimited` (any delimiter; `from_csv`: `,`, `from_tsv`: tab):
+    `csv.reader` row → tab join → genfromtxt split.  For the tab delimiter this means: a cell holding a tab
+    is written quoted by `csv.writer`, parsed back whole by `csv.reader`, and then re-joined and split
+    again at its own tab. -/
 def importLine (d q : Char) (line : List Char) : Except Err (List Field) :=
   match csvParseLine d q line with
   | .error e => .error e
   | .ok row => .ok (genSplit (tabJoin row))
 
-/-- One line through `from_tsv`: the raw line goes to genfromtxt (no `csv.reader`). -/
-def importLineTsv (line : List Char) : List Field := genSplit line
+/-- `from_tsv` = `from_delimited(delimiter='\t')`. -/
+def importLineTsv (q : Char) (line : List Char) : Except Err (List Field) := importLine '\t' q line
+
+/-- HISTORICAL: pinned-tree behaviour, repaired in 82942dd.  `from_tsv` handed the raw line to genfromtxt
+    without `csv.reader`, so the quoting written by `to_tsv` was never undone. -/
+def importTsvOld (line : List Char) : List Field := genSplit line
 
 /-! ### record layout (`_to_str_records`) and its inverse (header / index split of `from_delimited`) -/
 
@@ -212,5 +220,59 @@ def splitRecords (indexDepth columnsDepth : Nat) (rows : List (List Field)) : Sp
   let body := rows.drop columnsDepth
   { apex := hdr.map (·.take indexDepth), columns := hdr.map (·.drop indexDepth),
     index := body.map (·.take indexDepth), cells := body.map (·.drop indexDepth) }
+
+/-! ### StoreFilter: the encode / decode table -/
+
+/-- A cell value as far as `StoreFilter` distinguishes values: the five special values, a string, or
+    any other value (`plain`: ints, finite floats, bools, ... pass through both directions untouched). -/
+inductive Cell (α : Type)
+  | none | nan | nat | posInf | negInf
+  | text (s : Field)
+  | plain (a : α)
+deriving DecidableEq, Repr
+
+/-- The `from_*` strings (`none` = Python `None`: no replacement) and the `to_*` sets of a `StoreFilter`. -/
+structure StoreFilter where
+  fromNan : Option Field
+  fromNat : Option Field
+  fromNone : Option Field
+  fromPosInf : Option Field
+  fromNegInf : Option Field
+  toNan : List Field
+  toNat : List Field
+  toNone : List Field
+  toPosInf : List Field
+  toNegInf : List Field
+
+/-- `StoreFilter()` : the defaults of `__init__` (`STORE_FILTER_DEFAULT`). -/
+def storeFilterDefault : StoreFilter :=
+  { fromNan := some [], fromNat := some [], fromNone := some "None".toList,
+    fromPosInf := some "inf".toList, fromNegInf := some "-inf".toList,
+    toNan := [[], "nan".toList, "NaN".toList, "NAN".toList, "NULL".toList, "#N/A".toList],
+    toNat := [], toNone := ["None".toList], toPosInf := ["inf".toList], toNegInf := ["-inf".toList] }
+
+/-- `from_type_filter_element` (no `value_format_*` set): `None` first, then the float tests in the order
+    isnan, isposinf, isneginf (a test with replacement `None` is skipped), then NaT — which is replaced by
+    `from_nat` unconditionally, even when that is `None`. -/
+def sfEncode {α} (f : StoreFilter) : Cell α → Cell α
+  | .none => match f.fromNone with | some s => .text s | none => .none
+  | .nan => match f.fromNan with | some s => .text s | none => .nan
+  | .posInf => match f.fromPosInf with | some s => .text s | none => .posInf
+  | .negInf => match f.fromNegInf with | some s => .text s | none => .negInf
+  | .nat => match f.fromNat with | some s => .text s | none => .none
+  | v => v
+
+/-- `to_type_filter_element`: a string is looked up in the sets in the order of `_TYPE_TO_TO_SET`
+    (nan, nat, none, posinf, neginf), first hit wins; anything that is not a string is returned as is.
+    (`to_type_filter_array` applies the same table, in the same order, to str / object arrays.) -/
+def sfDecode {α} (f : StoreFilter) : Cell α → Cell α
+  | .text s =>
+    if s ∈ f.toNan then .nan
+    else if s ∈ f.toNat then .nat
+    else if s ∈ f.toNone then .none
+    else if s ∈ f.toPosInf then .posInf
+    else if s ∈ f.toNegInf then .negInf
+    else .text s
+  | v => v
 
 end SF.Csv
